@@ -44,9 +44,12 @@ def track_json(case):
     ops, sched = [], []
     for el in case["elements"]:
         for t in el["tasks"]:
-            params = {"name": "op-" + t["name"], "operation-type": t.get("op_type", "verif-op"), "param-source": "verif-source", "requests": t["requests"]}
-            if t.get("finite") is not None:
-                params["finite"] = t["finite"]
+            if t.get("composite") is not None:
+                params = {"name": "op-" + t["name"], "operation-type": "composite", "requests": t["composite"]}
+            else:
+                params = {"name": "op-" + t["name"], "operation-type": t.get("op_type", "verif-op"), "param-source": "verif-source", "requests": t["requests"], "task": t["name"]}
+                if t.get("finite") is not None:
+                    params["finite"] = t["finite"]
             ops.append(params)
         if el.get("parallel"):
             p = {"tasks": [task_json(t) for t in el["tasks"]]}
@@ -94,7 +97,7 @@ def make_delay_profile(name, scale=1.0):
 _home_ready = set()
 
 
-def prepare_home(scratch, cores):
+def prepare_home(scratch, cores, ini_extra=None):
     home = os.environ["RALLY_HOME"] = os.path.join(str(scratch), "home")
     confdir = os.path.join(home, ".rally")
     if home not in _home_ready:
@@ -111,14 +114,20 @@ def prepare_home(scratch, cores):
             logging.getLogger().addHandler(logging.NullHandler())
         logging.getLogger().setLevel(logging.ERROR)
     ini = os.path.join(confdir, "rally.ini")
-    text = open(ini).read()
-    import re
+    if home not in _ini_template:
+        import re
 
-    text = re.sub(r"\navailable\.cores\s*=.*", "", text)
-    text = text.replace("[system]", f"[system]\navailable.cores = {cores}", 1)
+        _ini_template[home] = re.sub(r"\n(available\.cores|sample\.queue\.size|metrics\.request\.downsample\.factor)\s*=.*", "", open(ini).read())
+    text = _ini_template[home].replace("[system]", f"[system]\navailable.cores = {cores}", 1)
+    for section, kv in (ini_extra or {}).items():
+        add = "".join(f"\n{k} = {v}" for k, v in kv.items())
+        text = text.replace(f"[{section}]", f"[{section}]{add}", 1)
     with open(ini, "w") as f:
         f.write(text)
     return home
+
+
+_ini_template = {}
 
 
 def run_race(case, scratch, extra_args=(), faults=None, instrument=None):
@@ -127,7 +136,7 @@ def run_race(case, scratch, extra_args=(), faults=None, instrument=None):
     `instrument`: callable(kernel, tr) -> undo, for property-specific recording wrappers."""
     tr = Trace()
     rng = _random.Random(f"race:{case['seed']}")
-    home = prepare_home(scratch, case.get("cores", 2))
+    home = prepare_home(scratch, case.get("cores", 2), case.get("ini"))
     race_id = f"verif-{case['seed']}-{rng.randrange(1 << 30)}"
     track_dir = write_track(case, os.path.join(str(scratch), "tracks", race_id))
     static_file = os.path.join(str(scratch), "static.json")
